@@ -695,3 +695,122 @@ func RunInvalid(c *core.Ctx) {
 	d.Audit("invalid-input sweep")
 	c.Sample(map[string]any{"backend": backend, "documents": n, "indexes": nIdx, "scenarios": len(scens)})
 }
+
+// FindAllFaulted runs one query once cleanly to learn its store calls, then again with the k-th faultable call
+// failing, for every k (at most 48 positions, spread). A failing store may make the query fail; it may never make
+// it succeed with something else than the answer: no missing, foreign or displaced document, no shifted window.
+func (s *S) FindAllFaulted(q *model.Query) {
+	mc := s.coll(q.Coll)
+	if mc == nil || s.h.MS == nil {
+		return
+	}
+	n := "FindAll(" + q.String() + ")"
+	s.h.MS.BeginOp(true)
+	_, err := s.h.DB.FindAll(q.ToClover())
+	st := s.h.MS.EndOp()
+	if err != nil {
+		return
+	}
+	faultable := 0
+	for _, e := range st.Trace {
+		if e.Kind.Faultable() {
+			faultable++
+		}
+	}
+	step := 1
+	if faultable > 48 {
+		step = faultable/48 + 1
+	}
+	s.c.Log("%s under store faults (%d faultable calls)", n, faultable)
+	for k := 1 + s.r.Intn(step); k <= faultable; k += step {
+		sticky := s.r.Bool()
+		s.h.MS.BeginOp(false)
+		s.h.MS.SetFault(mon.Fault{Nth: k, Sticky: sticky})
+		var docs []*document.Document
+		e := Do(func() (e error) { docs, e = s.h.DB.FindAll(q.ToClover()); return })
+		fst := s.h.MS.EndOp()
+		s.c.Eval(1)
+		if pe, ok := IsPanic(e); ok {
+			s.viol(PanicSig(pe), "%s panicked when store call %d failed: %v\n%s", n, k, pe.Val, trim(pe.Stack, 25))
+			return
+		}
+		if fst.Injected == 0 {
+			continue
+		}
+		if fst.TxBegun != fst.TxFinished {
+			s.viol("fault:tx-leak:FindAll", "%s with store call %d failing left %d transaction(s) open", n, k, fst.TxBegun-fst.TxFinished)
+			return
+		}
+		if e != nil {
+			s.c.Count("faulted_reads_failed", 1)
+			continue
+		}
+		res := model.FromDocs(docs)
+		problem, inc := model.CheckResult(q, mc.Docs, res)
+		if inc {
+			s.c.Inconclusive("unspecified_comparison")
+			return
+		}
+		if problem != "" {
+			s.c.Log("   store call %d of %d failed (sticky=%v); FindAll returned no error; ids=%v", k, faultable, sticky, idsOf(res))
+			s.viol("fault:silent-wrong-result:"+problemClass(problem), "%s on %s (indexes %v): faultable store call %d of %d was made to fail; the query reported NO error and returned a wrong answer: %s\n  got %d documents:%s",
+				n, s.h.Backend, mc.IndexList(), k, faultable, problem, len(res), renderDocs(res, 12))
+			return
+		}
+		s.c.Count("faulted_reads_right_despite_fault", 1)
+	}
+}
+
+// RunReadFaults: sorted / windowed / filtered queries over indexed and plain collections with every store call
+// failing in turn (C08 and the other read-result properties: a reported success is the exact answer).
+func RunReadFaults(c *core.Ctx) {
+	r := c.R
+	backend := gen.Pick(r, []string{BBolt, BBolt, BadgerMem, BadgerDisk})
+	h, err := Open(c, backend, "")
+	if err != nil {
+		c.Violate("open-error", "opening %s failed: %v", backend, err)
+		return
+	}
+	defer h.Destroy()
+	cfg := &SeqCfg{W: weights(nil), SupplyIDs: true, CritPct: 60, SortPct: 80, WinPct: 70,
+		ForceFields: map[string]gen.Profile{"a": {Kind: gen.PSmallInt}, "b": {Kind: gen.PMixedNum, Absent: 10}, "u": {Kind: gen.PSmallInt}}}
+	d := &seqRun{S: NewS(c, h), cfg: cfg, r: r}
+	sch := d.newSchema()
+	d.CreateCollection("t", sch)
+	n := gen.Pick(r, []int{6, 12, 25})
+	docs := d.newDocsClean("t", n)
+	for i := range docs {
+		docs[i]["u"] = int64(i) // a unique sort key
+	}
+	d.Insert("t", docs, false)
+	nIdx := r.Intn(4)
+	for i, fld := range []string{"u", "a", "b"} {
+		if i < nIdx {
+			d.CreateIndex("t", fld)
+		}
+	}
+	if d.failed {
+		return
+	}
+	dirs := []int{1, -1}
+	qs := []*model.Query{
+		{Coll: "t", Sorted: true, Sort: []model.SortOpt{{Field: "u", Dir: gen.Pick(r, dirs)}}, HasSkip: true, Skip: r.Intn(n / 2), HasLimit: true, Limit: 1 + r.Intn(n/2)},
+		{Coll: "t", Crit: cmpc(model.OpGtEq, "u", int64(r.Intn(n/2))), Sorted: true, Sort: []model.SortOpt{{Field: "u", Dir: gen.Pick(r, dirs)}}, HasSkip: true, Skip: 1, HasLimit: true, Limit: 3},
+		{Coll: "t", Crit: cmpc(model.OpLt, "u", int64(n/2+r.Intn(n/2))), HasLimit: true, Limit: n},
+		{Coll: "t", Sorted: true, Sort: []model.SortOpt{{Field: "a", Dir: gen.Pick(r, dirs)}, {Field: "u", Dir: 1}}, HasSkip: true, Skip: r.Intn(3)},
+	}
+	for i := 0; i < 4; i++ {
+		qs = append(qs, d.pickQuery("t"))
+	}
+	for _, q := range qs {
+		d.FindAll(q)
+		if d.failed {
+			return
+		}
+		d.FindAllFaulted(q)
+		if d.failed {
+			return
+		}
+		c.Cell("read-fault|%s|idx%d|sorted=%v|win=%v", backendClass(backend), nIdx, q.Sorted, q.EffSkip() > 0 || q.EffLimit() >= 0)
+	}
+}
